@@ -180,6 +180,28 @@ func syncPoint() {
 	}
 }
 
+// ArgTrace, if set, is called when a value operand of a sync/atomic call has
+// been evaluated and the call itself is still to come (k = index of the yield
+// that follows).
+var ArgTrace func(task, op, k int)
+
+// SyncArgs counts executed SyncArg points (evidence).
+var SyncArgs uint64
+
+// SyncArg is wrapped around the value operands of sync/atomic calls by the
+// instrumenter: the operand has been evaluated, the atomic operation has not
+// happened yet; other tasks may run in between.
+func SyncArg(v interface{}) interface{} {
+	if on && quiet == 0 && cur != nil {
+		SyncArgs++
+		if ArgTrace != nil {
+			ArgTrace(cur.id, cur.op, cur.opYields+1)
+		}
+	}
+	syncPoint()
+	return v
+}
+
 // OnceDo replaces (*sync.Once).Do.
 func OnceDo(o *sync.Once, f func()) {
 	if onceDone[o] {
